@@ -11,14 +11,15 @@ func multiPointReader(r io.Reader, byteOrder binary.ByteOrder) (geom.Geom, error
 	if err := binary.Read(r, byteOrder, &numPoints); err != nil {
 		return nil, err
 	}
-	points := make([]geom.Point, numPoints)
+	// The count is not trusted (see readPoints): the slice grows as members are read.
+	points := []geom.Point{}
 	for i := uint32(0); i < numPoints; i++ {
 		if g, err := Read(r); err == nil {
-			var ok bool
-			points[i], ok = g.(geom.Point)
+			point, ok := g.(geom.Point)
 			if !ok {
 				return nil, &UnexpectedGeometryError{g}
 			}
+			points = append(points, point)
 		} else {
 			return nil, err
 		}
